@@ -85,10 +85,12 @@ def classify_region(method, pt):
     return 'ok'
 
 
-def producer(chk, facts, nf, im, cm, fn, method, label, sfx, subst=None, make_args=None):
+def producer(chk, facts, nf, im, cm, fn, method, label, sfx, subst=None, make_args=None, extra_ranges=None, drop_literal=None):
     """Domain table + formula + kind table for one producer entry point."""
     where = facts.loc(fn['id'])
     dom = mk_domain(nf)
+    if extra_ranges:
+        dom.ranges.update(extra_ranges)
     for kind, kname in KINDS:
         key = '%s:%s:%s%s' % (PID, label, kname, sfx)
         try:
@@ -117,6 +119,8 @@ def producer(chk, facts, nf, im, cm, fn, method, label, sfx, subst=None, make_ar
                 continue
             lins, other = [], []
             for atom, pol in residual:
+                if drop_literal is not None and drop_literal(atom):
+                    continue
                 try:
                     lins.append(linearize(nf, atom, pol, ('n', 'k'), positive=('n',)))
                 except NotLinear:
@@ -253,65 +257,115 @@ def run_cfg(chk, facts, cfg):
             return sx, paths, None
         producer(chk, facts, nf, im, cm, sci, 'wilson', 'Stats::ci', sfx, make_args=mk)
 
-    # ---- counting front-ends: folds (n,k) += (1, [success])
-    def check_count_fold(key, where, sx, pred_polarity_expected=True):
+    # ---- counting front-ends: every carried integer of the loop is classified as a counter of all
+    # elements (N), of the successes (K), of the failures (N-K) or unchanged, by base/step; the
+    # havocked counters are then replaced by init + N / K / (N-K) in whatever the function does next
+    def check_count_fold(key, where, sx):
         recs = sx.loop_records
         if len(recs) != 1:
             chk.ob(key, 'T1-fold', 'counting loop', None, 'undecided: %d loops' % len(recs), where)
             return None
         rec = recs[0]
-        cells = [c for c, v in rec['cell_havoc'].items() if v[0] == 'adt' and v[1] == 'proportion::Stats']
-        if len(cells) != 1:
-            chk.ob(key, 'T1-fold', 'counting loop carries one Stats', None, 'undecided: %d Stats states in the loop' % len(cells), where)
-            return None
-        c = cells[0]
-        init, hav = rec['cell_init'][c], rec['cell_havoc'][c]
         probs = []
-        if init != stats_state(T.mk_int(0), T.mk_int(0)):
-            probs.append('initial state is %s' % T.show(init))
-        hn, hk = hav[3][layout[0]], hav[3][layout[1]]
-        seen = set()
+        one, zero = nf.of_term(T.mk_int(1)), nf.of_term(T.mk_int(0))
+        step_info = []
         for st in rec['steps']:
             nexts = [e for e in st['events'] if e[0] == 'next']
             if len(nexts) != 1 or nexts[0][2] is None:
                 probs.append('an iteration does not consume exactly one element')
                 continue
             e = nexts[0][2]
-            post = st['cell_post'][c]
-            dn = nf.sub(nf.of_term(post[3][layout[0]]), nf.of_term(hn))
-            dk = nf.sub(nf.of_term(post[3][layout[1]]), nf.of_term(hk))
-            one = nf.of_term(T.mk_int(1))
-            # which way did the success test go on this path?
             lit = [(a, pol) for a, pol in st['guard'] if a[0] != 'variant']
-            if len(lit) != 1:
+            succ = None
+            if len(lit) == 1:
+                a, pol = lit[0]
+                is_elem = (a == e) or (a[0] == 'op' and a[1] == 'eq' and e in a[2])
+                is_pred = a[0] == 'call' and a[1] == 'apply' and len(a[2]) == 2 and (a[2][1] == e or a[2][1] == ('op', 'ref', (e,)))
+                if not (is_elem or is_pred):
+                    probs.append('success test is not the element / predicate of the element: %s' % T.show(a)[:100])
+                    continue
+                succ = pol
+            elif len(lit) > 1:
                 probs.append('step guarded by %d literals' % len(lit))
                 continue
-            a, pol = lit[0]
-            # success test: the element itself (bool data) or pred(&element)
-            is_elem = (a == e) or (a[0] == 'op' and a[1] == 'eq' and e in a[2])
-            is_pred = a[0] == 'call' and a[1] == 'apply' and len(a[2]) == 2 and (a[2][1] == e or a[2][1] == ('op', 'ref', (e,)))
-            if not (is_elem or is_pred):
-                probs.append('success test is not the element / predicate of the element: %s' % T.show(a)[:100])
+            step_info.append((st, e, succ))
+        sub = {}
+        classes = {}
+
+        def leaves(hv, init, posts, label):
+            # carried values may be structured (tuple accumulator of a fold, a Stats struct)
+            if hv[0] in ('tuple', 'adt'):
+                fs = hv[1] if hv[0] == 'tuple' else hv[3]
+                for i, f_ in enumerate(fs):
+                    def sel(v, i=i):
+                        if v is None or v[0] not in ('tuple', 'adt'):
+                            return None
+                        xs = v[1] if v[0] == 'tuple' else v[3]
+                        return xs[i] if i < len(xs) else None
+                    for x in leaves(f_, sel(init), [sel(p_) for p_ in posts], '%s.%d' % (label, i)):
+                        yield x
+            else:
+                yield hv, init, posts, label
+        flat = []
+        for loc, hv in rec['havoc'].items():
+            posts = [st['post'].get(loc) for st, e, succ in step_info]
+            flat.extend(leaves(hv, rec['init'].get(loc), posts, rec['labels'].get(loc, '?')))
+        for hs, init, posts, label in flat:
+            if hs[0] != 'sym':
                 continue
-            succ = pol
-            if not nf.equal(dn, one):
-                probs.append('population is not incremented by one on every element')
-            want_dk = one if succ else nf.of_term(T.mk_int(0))
-            if not nf.equal(dk, want_dk):
-                probs.append('successes %s when the success test is %s' % ('not incremented' if succ else 'incremented', succ))
-            seen.add(succ)
-        if seen != {True, False}:
-            probs.append('success and failure steps not both present')
+            loc = label
+            ty = sx.symty.get(hs[1]) or {}
+            if not (ty.get('k') in ('usize', 'u64', 'u32', 'isize', 'i64', 'i32') or (init is not None and init[0] == 'int')):
+                continue
+            kinds = []
+            for (st, e, succ), post in zip(step_info, posts):
+                if post is None:
+                    kinds.append(('other', succ))
+                    continue
+                try:
+                    d = nf.sub(nf.of_term(post), nf.of_term(hs))
+                except NotReal:
+                    kinds.append(('other', succ))
+                    continue
+                ind = post is not None and any(T.subst(post, {hs: T.mk_int(0)}) == cand for cand in (T.op('i2i', e), T.op('add', T.mk_int(0), T.op('i2i', e)), ('op', 'i2i', (e,))))
+                if nf.equal(d, one):
+                    kinds.append(('one', succ))
+                elif nf.equal(d, zero):
+                    kinds.append(('zero', succ))
+                elif ind or (post[0] == 'op' and post[1] == 'add' and hs in post[2] and any(x[0] == 'op' and x[1] == 'i2i' and x[2][0] == e for x in post[2])):
+                    kinds.append(('ind', succ))
+                else:
+                    kinds.append(('other', succ))
+            ks = set(kinds)
+            cls = None
+            if ks and all(k == 'one' for k, _ in ks):
+                cls = 'N'
+            elif ks and all(k == 'zero' for k, _ in ks):
+                cls = '0'
+            elif ks and all(k == 'ind' and s_ is None for k, s_ in ks):
+                cls = 'K'
+            elif ks == {('one', True), ('zero', False)}:
+                cls = 'K'
+            elif ks == {('one', False), ('zero', True)}:
+                cls = 'F'
+            if cls is None:
+                probs.append('carried integer %s is not a counter of the elements / successes (steps: %s)' % (label, sorted(ks, key=repr)))
+                continue
+            classes[label] = cls
+            inc = {'N': N, 'K': K, 'F': T.op('sub', N, K), '0': T.mk_int(0)}[cls]
+            sub[hs] = T.op('add', init, inc) if init != T.mk_int(0) else inc
+        if not any(c == 'N' for c in classes.values()) and not probs:
+            probs.append('no carried counter is incremented on every element')
         for ev in rec['exit_events']:
             nexts = [x for x in ev if x[0] == 'next']
             if len(nexts) != 1 or nexts[0][2] is not None:
                 probs.append('loop left other than by exhausting the data')
-        chk.ob(key, 'T1-fold', 'front-end loop counts every element once: (n,k) += (1, [success test true])', not probs, '; '.join(probs[:3]), where,
-               sample={'loop': rec['where'], 'steps': len(rec['steps'])})
+        chk.ob(key, 'T1-fold', 'every carried integer of the front-end loop is a counter of the elements (N) or of the successes (K); each element is consumed once', not probs, '; '.join(probs[:3]), where,
+               sample={'loop': rec['where'], 'steps': len(rec['steps']), 'counters': classes})
         chk.analysed['loops'] += 1
         if probs:
             return None
-        return {hn: N, hk: K}
+        return sub
 
     for label, fn, names in (('ci_true', facts.free_fn('proportion::ci_true'), ['confidence', 'data']),
                              ('ci_if', facts.free_fn('proportion::ci_if'), ['confidence', 'data', 'pred'])):
@@ -327,20 +381,36 @@ def run_cfg(chk, facts, cfg):
                 return sx, None, None
             return sx, paths, sub
         producer(chk, facts, nf, im, cm, fn, 'wilson', label, sfx, make_args=mk)
-    # state-only front-ends (no interval): FromIterator, extend, extend_if, add_success/add_failure
-    for label, fn, names, args in (
-            ('FromIterator<bool>', facts.trait_method('core::iter::FromIterator', 'proportion::Stats', 'from_iter'), ['iter'], [None]),
-            ('Stats::extend', facts.inherent('proportion::Stats', 'extend'), ['self', 'data'], [by_ref(stats_state(T.mk_int(0), T.mk_int(0))), None]),
-            ('Stats::extend_if', facts.inherent('proportion::Stats', 'extend_if'), ['self', 'data', 'pred'], [by_ref(stats_state(T.mk_int(0), T.mk_int(0))), None, None])):
+    # state-only front-ends (no interval): the final state must be (n0 + N, k0 + K)
+    N0, K0 = T.sym('n0'), T.sym('k0')
+    for label, fn, names, args, start in (
+            ('FromIterator<bool>', facts.trait_method('core::iter::FromIterator', 'proportion::Stats', 'from_iter'), ['iter'], [None], (T.mk_int(0), T.mk_int(0))),
+            ('Stats::extend', facts.inherent('proportion::Stats', 'extend'), ['self', 'data'], [by_ref(stats_state(N0, K0)), None], (N0, K0)),
+            ('Stats::extend_if', facts.inherent('proportion::Stats', 'extend_if'), ['self', 'data', 'pred'], [by_ref(stats_state(N0, K0)), None, None], (N0, K0))):
         if not chk.anchor(label + sfx, fn):
             continue
         cnt['frontends'] += 1
+        key = '%s:%s:fold%s' % (PID, label, sfx)
         try:
             sx, paths = summ(facts, fn, names, args)
             chk.saw(facts, fn, paths=len(paths))
-            check_count_fold('%s:%s:fold%s' % (PID, label, sfx), facts.loc(fn['id']), sx)
-        except Unsupported as e:
-            chk.ob('%s:%s:fold%s' % (PID, label, sfx), 'T1-fold', label, None, str(e), facts.loc(fn['id']))
+            sub = check_count_fold(key, facts.loc(fn['id']), sx)
+            if sub is None:
+                continue
+            probs = []
+            rets = [p for p in paths if p.is_ret()]
+            if len(rets) != len(paths) or not rets:
+                probs.append('%d paths, %d returning' % (len(paths), len(rets)))
+            for p in rets:
+                final = p.effects.get('self') if 'self' in names else p.ret
+                final = T.subst(final, sub) if final is not None else None
+                want = stats_state(T.op('add', start[0], N), T.op('add', start[1], K))
+                okf = final is not None and final[0] == 'adt' and final[1] == 'proportion::Stats' and all(nf.term_equal(x, y) for x, y in zip(final[3], want[3]))
+                if not okf:
+                    probs.append('final state is %s, expected (n0 + N, k0 + K)' % (T.show(final)[:120] if final else None))
+            chk.ob(key + ':state', 'T1-fold', '%s leaves the state at (population + number of elements, successes + number of successes)' % label, not probs, '; '.join(probs[:2]), facts.loc(fn['id']))
+        except (Unsupported, NotReal) as e:
+            chk.ob(key, 'T1-fold', label, None, 'undecided: %s' % e, facts.loc(fn['id']))
     for label, dn, dk in (('add_success', 1, 1), ('add_failure', 1, 0)):
         fn = facts.inherent('proportion::Stats', label)
         if not chk.anchor('Stats::%s%s' % (label, sfx), fn):
@@ -388,6 +458,21 @@ def run_cfg(chk, facts, cfg):
                 probs.append('r <= 0 is not rejected with NonPositiveValue')
             chk.ob('%s:ci_wilson_ratio%s' % (PID, sfx), 'E3', 'the success-ratio form is the interval of round(r*n) successes; r <= 0 => NonPositiveValue',
                    not probs, '; '.join(probs), where, sample={'fn': 'ci_wilson_ratio'})
+            # the whole front-end, with the implied count named k, must be the Wilson producer of (n, k):
+            # domain table, formula and kind table (catches a count that is validated but not used)
+            if not probs:
+                kterm = T.op('f2i', T.op('round', T.op('mul', R, FN)))
+
+                def mk_ratio(kind):
+                    sx2, paths2 = summ(facts, fn, ['confidence', 'n', 'r'], [cm.value(kind, L), None, None])
+                    # r > 0 region only (r <= 0 is rejected above); drop those paths by their guard
+                    keep = [p_ for p_ in paths2 if err_variant(facts, p_.ret) != 'NonPositiveValue']
+                    return sx2, keep, {kterm: K}
+
+                def strip_r(paths_):
+                    return paths_
+                producer(chk, facts, nf, im, cm, fn, 'wilson', 'ci_wilson_ratio', sfx, make_args=mk_ratio, extra_ranges={'r': (Fraction(0), None, True, True)},
+                         drop_literal=lambda a: a[0] == 'op' and a[1] == 'le' and a[2] == (R, F0))
         except Unsupported as e:
             chk.ob('%s:ci_wilson_ratio%s' % (PID, sfx), 'E3', 'ratio form', None, str(e), where)
 
